@@ -5,6 +5,7 @@
 From Coq Require Import NArith ZArith List Bool.
 From KT Require Import Gen.Generated Gen.Alphabet Model.Kmer Model.Show Model.Flt Model.Ops Model.Rows.
 From KT Require Import Proof.RevComp Proof.PosMap Proof.Oligo Proof.Sched Proof.SchedTrace Proof.Batch Proof.Merge Proof.MinConc Proof.MinSpec.
+From KT Require Proof.CountSched Proof.CountTrace.
 Import ListNotations.
 Open Scope N_scope.
 
@@ -87,6 +88,22 @@ Definition s_ctr (k : nat) (acgt : bool) (recs : list (list N)) : list N :=
   let ws := all_canon_spec k recs in
   join comma (map (fun x => (if acgt then s_dec k x else dec x) ++ colon ++ dec_nat (count_occ N.eq_dec ws x))
                   (NSort.sort (nodup N.eq_dec ws))).
+
+(* counter under a schedule: the trace of atomic steps and the content of every chunk pass *)
+Definition show_cev (e : nat * CountTrace.cev) : list N :=
+  dec_nat (fst e) ++ colon ++
+  match snd e with
+  | CountTrace.CPass => [99; 43] | CountTrace.CFail => [99; 45] | CountTrace.CTake n => 116 :: dec_nat n | CountTrace.CNone => [116; 45]
+  | CountTrace.CInc x => 105 :: dec x | CountTrace.CAdd => [97]
+  end.
+Definition show_bag (b : list N) : list N :=
+  join comma (map (fun x => dec x ++ colon ++ dec_nat (count_occ N.eq_dec b x)) (NSort.sort (nodup N.eq_dec b))).
+Definition m_csched (k W : nat) (limit : N) (sched : list nat) (recs : list (list N)) : list N :=
+  let rs := map (fun s => (map canon_of (kg_run nt4k k s), N.of_nat (length s))) recs in
+  let '(tr, st) := CountTrace.ctrace rs W limit sched in
+  if CountSched.fin st
+  then join comma (map show_cev tr) ++ [124] ++ join semi (map show_bag (rev (CountSched.done st)))
+  else [83; 72; 79; 82; 84].          (* the schedule ended before the run did: not a valid case *)
 
 (* ---------- cov ---------- *)
 Definition count_table (k : nat) (recs : list (list N)) : list (N * N) :=
